@@ -47,7 +47,7 @@ def generate(ctx, rng):
                                  "rseed": rng.getrandbits(32), "inner_marker": False}
     # ... and responses whose ciphertext or tag happens to contain the start marker bytes 83 70 (searched for)
     found = 0
-    want = 40 if quick else 600
+    want = 40 if quick else 3000
     tries = 0
     while found < want and tries < 400000:
         tries += 1
@@ -67,7 +67,7 @@ def generate(ctx, rng):
         for ctr in Q_COUNTERS + [rng.randrange(4096) for _ in range(60)]:
             yield ("enc-ctr", ctr), {"kind": "enc", "key": rng.randbytes(32), "payload": rng.randbytes(ctr % 40), "counter": ctr}
     # sessions: many requests / responses of varying length on ONE protocol instance (state carried between packets)
-    for j in range(40 if quick else 1500):
+    for j in range(40 if quick else 7500):
         style = j % 4
         if style == 0:
             lens = list(range(0, 48))
@@ -96,7 +96,7 @@ def generate(ctx, rng):
                 yield ("tamper-wire-all", res, L, key[:2], part), {"kind": "tamper-wire", "key": key, "frame_len": L,
                                                                   "bits": "part", "part": part, "bseed": 0}
     # wire round trips
-    for j in range(120 if quick else 12000):
+    for j in range(120 if quick else 60000):
         L = j % 200 if j < 200 else rng.randint(0, 255)
         yield ("wire", j), {"kind": "wire", "frame": rng.randbytes(L), "responses": [rng.randbytes(rng.choice([rng.randint(0, 120), rng.randint(120, 260)])) for _ in range(rng.choice([1, 1, 2]))],
                             "key": rng.randbytes(32), "token": rng.randbytes(64)}
